@@ -12,12 +12,6 @@ any dereference of a dead pointer), so termination and memory safety on well-for
 -/
 namespace Jwt.Ll
 
-/-- what the loops read of an item (`item->error`, `item->kid`) -/
-structure ItemView where
-  error : Bool
-  kid : Option (List UInt8)
-  deriving Repr, Inhabited, DecidableEq
-
 /-- `list_for_each_entry(item, head, node)`: the nodes visited, in order -/
 def walkFrom (h : Heap) (head : Addr) : Nat → Addr → Option (List Addr)
   | 0, _ => none
